@@ -42,6 +42,7 @@ REQUIRED = (
        "judged:chord:curve:circle", "judged:chord:curve:line", "judged:chord:curve:linear", "judged:chord:curve:spline",
        "judged:chord:curve:helix", "judged:chord:curve:discrete", "class:curve:reversed-parameters"]
 )
+REQUIRED = list(REQUIRED) + ["judged:after-moving-both-vertices"]
 RULE = (
     "circle: centre 0 or U(-10,10)^3, normal axis-aligned or random with |n| in [0.2,5], R = 10^U(-1,2), start direction "
     "random in the plane; sector theta = +-(0.02, 2pi-0.02) (60% uniform, 25% pi +- 10^U(-4,-0.5), 15% next to the two ends), "
@@ -509,6 +510,25 @@ def _run_arc(ctx, case):
     elif not a_ok and valid and _finite(tp):
         _judge_consistency(ctx, kind, kind, where, p1, tp, p2, length)
     _judge_chord(ctx, kind, kind, length, p1, p2)
+
+    # ---- history: both end vertices are moved along the same circle (as a modification / optimisation would do) and
+    # the edge is read again - nothing of the first reading may be remembered. (origin / angle edges keep describing the
+    # same circle when both ends are rotated about its axis by the same angle.)
+    if kind in ("origin", "angle") and a_ok and valid and int(R * 1e6) % 3 == 0:
+        delta = 0.37 if int(R * 1e6) % 2 == 0 else -0.81
+        q1, q2 = geom.rotate(p1, n, delta, c), geom.rotate(p2, n, delta, c)
+        edge.vertex_1.move_to(list(q1))
+        edge.vertex_2.move_to(list(q2))
+        mid2 = geom.rotate(mid, n, delta, c)
+        tp2 = np.asarray(edge.third_point.position, dtype=float)
+        len2 = float(edge.length)
+        ctx.count("judged:after-moving-both-vertices")
+        if not _finite(tp2) or geom.dist(tp2, mid2) > 1e-7 * R:
+            ctx.violation(f"third-point-not-updated-after-vertex-move:{kind}",
+                          f"{where}: both ends rotated by {delta} about the circle's axis: third_point {tp2.tolist()}, expected {mid2.tolist()}")
+            return
+        if abs(len2 - want_len) > 1e-7 * want_len:
+            ctx.violation(f"length-not-updated-after-vertex-move:{kind}", f"{where}: length {len2!r} after the move, R*|angle| = {want_len!r}")
 
 
 def _judge_consistency(ctx, label, mech, where, p1, tp, p2, length):
